@@ -4,7 +4,9 @@
 // timeouts from one or several goroutines and records every call with what it
 // returned (and how long Delay took); the parent replays the level model over
 // the log (sequential cases), checks linearizability against the model
-// (concurrent cases, porcupine) and applies the wide-margin timing rules.
+// (concurrent cases, porcupine) and applies the wide-margin timing rules. The
+// hold mode (hold.go) looks at calls arriving while requests wait inside Delay
+// and decides on the order of logical stamps against a twin throttler.
 package c36
 
 import (
@@ -129,6 +131,8 @@ func judge(s caseSpec, lg caseLog) (j judged) {
 		maxD = max(maxD, d)
 	}
 	switch s.Mode {
+	case "hold":
+		judgeHold(s, lg, &j, add)
 	case "stale":
 		for k, v := range lg.Stale {
 			j.cnt["stale_"+k] += v
@@ -409,11 +413,12 @@ func genCase(no int, r *rand.Rand) caseSpec {
 }
 
 func run(c *vf.Ctx) {
-	c.Rule("case = (mode, delay table of 0-8 entries, release rate 1-5, idle timeout 0 / 30-100 ms / 1 h, seeded call sequence) on the real throttler.Throttler in a child process, once in the normal and once in the -race build. seq: one goroutine, 20-80 steps of Signal/Release/Reset/Level/GetDelay/Delay/idle-wait, level observed after every step and replayed against the model; lin: 2-4 goroutines, stamped history checked for linearizability against the model; idle: 1-4 goroutines under a short idle timeout, range checks + level 0 after quiescence and the timeout; cancel: Delay at a 1-4 s level under a context that ends after <=30 ms; stale (1 case in 40): 200 x (Signal, Signal, spin to the idle timeout +/-100 us, Signal, read the level twice). non-trivial = seq: a positive level and a saturation (Signal at the top or Release clamped at 0) occurred; lin: calls of different goroutines overlapped; idle: the timer was armed; cancel: a cancelled Delay returned early; stale: both orders (reset before / after the aimed Signal) were seen; distinct by (parameters, build)")
+	c.Rule("case = (mode, delay table of 0-8 entries, release rate 1-5, idle timeout 0 / 30-100 ms / 1 h, seeded call sequence) on the real throttler.Throttler in a child process, once in the normal and once in the -race build. seq: one goroutine, 20-80 steps of Signal/Release/Reset/Level/GetDelay/Delay/idle-wait, level observed after every step and replayed against the model; lin: 2-4 goroutines, stamped history checked for linearizability against the model; idle: 1-4 goroutines under a short idle timeout, range checks + level 0 after quiescence and the timeout; cancel: Delay at a 1-4 s level under a context that ends after <=30 ms; stale (1 case in 40): 200 x (Signal, Signal, spin to the idle timeout +/-100 us, Signal, read the level twice); hold (40 extra cases, quick; own seed stream): up to 3 rounds of {1-3 requests enter Delay at a level whose delay is 2-3.5 s under a context only the harness ends; then a writer arrives from another goroutine (Signal / Release / Reset, or the 30-100 ms idle timeout expiring); then a reader (Level / GetDelay / Delay under an ended context or one ending after <=30 ms; idle variant: Level polled until the reset shows)}, every writer/reader call paired with the same call on a twin throttler with nobody waiting, all calls stamped with one logical clock; the harness ends the waiting requests as soon as writer and reader have returned. non-trivial = seq: a positive level and a saturation (Signal at the top or Release clamped at 0) occurred; lin: calls of different goroutines overlapped; idle: the timer was armed; cancel: a cancelled Delay returned early; stale: both orders (reset before / after the aimed Signal) were seen; hold: a round in which every request was still waiting in Delay when writer and reader had returned; distinct by (parameters, build)")
 	c.Assume("model from the property text: Signal = min(level+1, len(table)-1); Release = max(level-rate, 0); Reset = 0; idle timeout without Signal/Release = 0; Delay waits table[level]")
 	c.Assume("wall clock is used only with wide margins and repetition: a Delay slower than 3x delay + 100 ms is repeated (3 attempts); held if any attempt is within the bound, violation only if all three are slower than 3x delay + 1 s while the heartbeat is healthy and a control sleep on the same goroutine after each slow attempt was on time (concurrent modes, single attempt: only > 3x the largest delay + 10 s), else inconclusive; a Delay (delay 1-4 s) whose context ended after <=30 ms must return within delay/2 + 100 ms, a violation only if all of three attempts waited >= 90% of the delay (same heartbeat / control-sleep conditions)")
 	c.Assume("idle timeout: every idle wait starts from a positive level (a Signal is inserted if needed) so that seeing 0 proves the timer callback ran; 0 within 3x timeout + 200 ms held, later but within 10 s inconclusive, never within 10 s (heartbeat gap < 1 s) violation; steps taken later than half the idle timeout after the last Signal/Release get no verdict and the timeout is then waited out; a level that drops to 0 earlier than half the timeout after the last Signal/Release is a violation")
 	c.Assume("a heartbeat gap >= 100 ms during a timed Delay makes that observation inconclusive")
+	c.Assume("hold mode decides on the order of logical stamps only: violation when, in at least two rounds of a case, a call invoked while a request was waiting in Delay returned only after that request's whole delay (2-3.5 s) had run out by itself, although the same call on the twin throttler, invoked later, had returned before the delay ran out (heartbeat gap < 100 ms over the round); the pattern in one round only, with an unhealthy heartbeat, or a waiting request running out without the pattern is inconclusive. Level at quiescence (and Level/GetDelay of the reader) against the model as in the other modes")
 
 	nCases := c.N(500, 8000)
 	chunk := c.N(50, 200)
@@ -425,11 +430,22 @@ func run(c *vf.Ctx) {
 	for i := range specs {
 		specs[i] = genCase(i, r)
 	}
+	// hold cases come from their own stream and are appended (the other cases of a
+	// seed stay what they were); they run in jobs of their own
+	nHold := c.N(40, 600)
+	rh := c.Rand(2)
+	for i := 0; i < nHold; i++ {
+		specs = append(specs, genHold(nCases+i, rh))
+	}
 	type job struct {
 		lo, hi int
 		race   bool
 	}
 	var jobs []job
+	for lo := nCases; lo < nCases+nHold; lo += 10 {
+		hi := min(lo+10, nCases+nHold)
+		jobs = append(jobs, job{lo, hi, false}, job{lo, hi, true})
+	}
 	for lo := 0; lo < nCases; lo += chunk {
 		hi := min(lo+chunk, nCases)
 		jobs = append(jobs, job{lo, hi, false}, job{lo, hi, true})
@@ -510,7 +526,12 @@ func run(c *vf.Ctx) {
 						c.Nontrivial(build + string(sb))
 					}
 					if doSample {
-						c.Sample(map[string]any{"spec": s, "build": build, "events": len(lg.Evs), "first_events": firstEvs(lg.Evs, 6), "counts": jd.cnt, "wall_us": lg.WallUS})
+						smp := map[string]any{"spec": s, "build": build, "events": len(lg.Evs), "first_events": firstEvs(lg.Evs, 6), "counts": jd.cnt, "wall_us": lg.WallUS}
+						if len(lg.Hold) > 0 {
+							smp["hold_rounds"] = len(lg.Hold)
+							smp["first_hold_round"] = lg.Hold[0]
+						}
+						c.Sample(smp)
 					}
 				}
 				for no := j.lo; no < j.hi; no++ {
@@ -590,7 +611,13 @@ func run(c *vf.Ctx) {
 		c.Extra("races_elsewhere_examples", otherList)
 	}
 	c.Count("worker_jobs", int64(len(jobs)))
-	c.Require(int64(nCases), nCases/2)
+	c.Require(int64(nCases+nHold), (nCases+nHold)/2)
+	if tot["hold_rounds_all_requests_waiting_throughout"]+tot["hold_rounds_blocked"] < int64(nHold) {
+		// 2 builds x nHold cases x up to 3 rounds were run: the hold monitor saw too little to mean anything
+		c.Logf("hold mode: only %d rounds in which the requests were waiting in Delay while writer and reader ran (+ %d blocked rounds), need %d", tot["hold_rounds_all_requests_waiting_throughout"], tot["hold_rounds_blocked"], nHold)
+		c.Inconclusive("too few hold rounds in which the requests were waiting in Delay while writer and reader ran")
+		c.Require(1<<62, (nCases+nHold)/2)
+	}
 }
 
 func firstEvs(e []ev, n int) []ev {
